@@ -393,6 +393,16 @@ Section RkIndep.
   Lemma peek_end_of_value_rk : forall s, peek_end_of_value Eio s = peek_end_of_value Esl s.
   Proof. unfold peek_end_of_value. rk_start. Qed.
 
+  (* both environments end with end-of-input ([tm = TEof]), so the lookahead after a bare scalar can never
+     report an I/O error: [peek] only fails through [at_end] when [tm E = TFail _] *)
+  Lemma peek_end_of_value_no_io : forall s k i, peek_end_of_value Esl s <> Err (Io k) i.
+  Proof.
+    intros s k i. unfold peek_end_of_value, peek, at_end. change (tm Esl) with TEof.
+    destruct (rest s) as [|b r]; cbn [bind].
+    - discriminate.
+    - destruct (is_delim b); [discriminate|]. unfold peek_error. discriminate.
+  Qed.
+
   Lemma value_item_rk : forall s, value_item Eio s = value_item Esl s.
   Proof. intros s. unfold value_item. apply parse_value_rk. Qed.
 
@@ -426,8 +436,14 @@ Section RkIndep.
           -- cbn [fst snd ss_off]. split; [reflexivity|]. split; [reflexivity|].
              left. split; reflexivity.
           -- rewrite peek_end_of_value_rk.
-             destruct (peek_end_of_value Esl s2) as [s3|c i| |]; cbn [fst snd ss_off];
-               (split; [reflexivity|]; split; [reflexivity|]; left; split; reflexivity).
+             destruct (peek_end_of_value Esl s2) as [s3|c i| |] eqn:Hpev.
+             ++ cbn [fst snd ss_off]. split; [reflexivity|]. split; [reflexivity|]. left; split; reflexivity.
+             ++ destruct c;
+                  try (cbn [fst snd ss_off]; split; [reflexivity|]; split; [reflexivity|]; left; split; reflexivity).
+                (* the only remaining case is Err (Io _) i: impossible for an end-of-input reader *)
+                exfalso. exact (peek_end_of_value_no_io s2 _ i Hpev).
+             ++ cbn [fst snd ss_off]. split; [reflexivity|]. split; [reflexivity|]. left; split; reflexivity.
+             ++ cbn [fst snd ss_off]. split; [reflexivity|]. split; [reflexivity|]. left; split; reflexivity.
         * unfold set_failed. change (is_io Eio) with true. change (is_io Esl) with false.
           cbn [fst snd ss_off ss_st ss_failed]. split; [reflexivity|]. split; [reflexivity|].
           right. cbn [ss_failed ss_st ss_off rest off]. repeat split; reflexivity.
